@@ -489,7 +489,7 @@ func (eng *Engine) loadContractFile(file string) error {
 			cur.Inst[callee] = m
 		case "use_axiom":
 			cur.UseAxioms = append(cur.UseAxioms, strings.Fields(strings.ReplaceAll(rest, ",", " "))...)
-		case "asm_allow", "asm_stub", "asm_dom":
+		case "asm_allow", "asm_stub", "asm_dom", "asm_copy":
 			// clauses for the assembly verifier (asmvc) only
 		case "opaque_products":
 			cur.Opaque = true
